@@ -1,16 +1,13 @@
 /-
-  Proofs/MixtureDMLockstep.lean — C06 (c) with measurements on which all branches agree, every number of qubits.
-
-  The two compilers are run in lockstep over the same placement trace.  Invariant: the density matrix of the density-matrix
-  model is `Σ_k w_k ρ(T_k)` of the stabilizer model's mixture, every branch a valid tableau with real stabilizer rows.
-  Unitary gates and noise keep it by the theorems of MixtureDMCompile / MixtureDMBridgeGate; a Z measurement (`MeasurementZ`,
-  and the measurement inside `ClassicalCNOT` / `ClassicalCZ`) keeps it when the flags the stabilizer model accumulates stay
-  off: `nonUniform = false` (all branches agree on "random?" and on the outcome) and `lossMeas = false` (total weight 1 at
-  the measurement, so that the `isclose` thresholds of `DensityMatrix.apply_measurement` decide as the tableau does).
+  Proofs/MixtureDMLockstep.lean — infrastructure for running the two compilers in lockstep (used by
+  Proofs/MixtureDMJointCircuit.lean for the repaired joint measurement), every number of qubits:
 
   * `toC_projectorsZ`, `applyMeasurement_random`, `applyMeasurement_det` : `projectors_zbasis`, `apply_measurement`;
-  * `measure_lockstep` : one measurement on both sides;
-  * `go_lockstep`, `dm_equals_mixture_meas` : whole circuits.
+  * `Inv` : the density matrix is `Σ_k w_k ρ(T_k)`, every branch a valid tableau with real stabilizer rows, same classical register;
+  * `dmReset_toC` : `get_reset_qubit_kraus` through `apply_channel` is the reset channel;
+  * HISTORICAL (`Mix.measureOld`, graphiq before the repair of finding F2): `measure_lockstep` — one per-branch measurement
+    agrees with `DensityMatrix.apply_measurement` when all branches agree and the total weight exceeds `2·10⁻⁸`;
+  * weights never grow (`lossFactor_range`, `weight_mono`), `stabGate_real`, `stabGate_creg`, `dmGate_creg`, `overlap_of_eqOn`.
 -/
 import GraphiqModel.Proofs.MixtureDMReset
 namespace Graphiq
@@ -103,13 +100,13 @@ structure Inv (n : Nat) (s : StabSt) (d : DmSt) : Prop where
 
 /-- the outcome `outcomes[0]` the mixture records, when all branches report `o` -/
 theorem head_outcome (q : Nat) (det : Bool) (m : Mixture) (o : Bool) (hne : m ≠ [])
-    (hall : ∀ o' ∈ (Mix.measure q det m).2, o' = o) : (Mix.measure q det m).2.headD false = o := by
+    (hall : ∀ o' ∈ (Mix.measureOld q det m).2, o' = o) : (Mix.measureOld q det m).2.headD false = o := by
   cases m with
   | nil => exact absurd rfl hne
   | cons x rest =>
     obtain ⟨w, t⟩ := x
-    have e : (Mix.measure q det ((w, t) :: rest)).2 = (t.zMeasure q det).2.1 :: (Mix.measure q det rest).2 := by
-      simp [Mix.measure]
+    have e : (Mix.measureOld q det ((w, t) :: rest)).2 = (t.zMeasure q det).2.1 :: (Mix.measureOld q det rest).2 := by
+      simp [Mix.measureOld]
     rw [e] at hall ⊢
     exact hall _ List.mem_cons_self
 
@@ -128,8 +125,8 @@ theorem measure_lockstep (n q : Nat) (hq : q < n) (det : Bool) (m : Mixture) (ρ
     (hρn : ρ.n = 2 ^ n) (hρ : toC n ρ = mixRho n m) (ht : wThr < Mix.total m) (hu : uniformMeas q det m = true)
     (hp : projectorsZ n q = .ok (p0, p1)) :
     ∃ ρ' o, applyMeasurement ρ p0 p1 det = .ok (some ρ', o) ∧ ρ'.n = 2 ^ n ∧
-      toC n ρ' = mixRho n (Mix.measure q det m).1 ∧ (∀ o' ∈ (Mix.measure q det m).2, o' = o) ∧
-      Fixed n q o (Mix.measure q det m).1 := by
+      toC n ρ' = mixRho n (Mix.measureOld q det m).1 ∧ (∀ o' ∈ (Mix.measureOld q det m).2, o' = o) ∧
+      Fixed n q o (Mix.measureOld q det m).1 := by
   obtain ⟨e0, e1, n0, n1⟩ := toC_projectorsZ n q hq p0 p1 hp
   have hnn : ρ.n = p0.n := by rw [hρn, n0]
   cases m with
@@ -199,109 +196,6 @@ theorem conditioned_all (f : Tab → Tab) (o : Bool) : ∀ (outs : List Bool) (m
     rw [this, ih]
     cases o' <;> simp [Mix.mapTab]
 
-/-- the operations with a measurement that are covered: `MeasurementZ`, `ClassicalCNOT`, `ClassicalCZ`, without noise -/
-def MeasKind (k : Kind) : Prop := k = .measZ ∨ k = .ccnot ∨ k = .ccz
-
-/-- `compile_one_gate` for an operation with a measurement, both sides, flags off -/
-theorem measGate_lockstep (np n : Nat) (det : Bool) (op : COp) (hk : MeasKind op.kind) (hw : OpWF n np op)
-    (s s1 : StabSt) (d d1 : DmSt) (hI : Inv n s d)
-    (hs : stabGate np n det op s = .ok s1) (hd : dmGate np n det op d = .ok d1)
-    (hu : s1.nonUniform = false) (hW : wThr < Mix.total s.mix) : Inv n s1 d1 := by
-  obtain ⟨⟨ρ, hρs, hρn, hρ⟩, hg, hcr⟩ := hI
-  have hq1 := hw.1
-  have hne := total_ne_nil _ hW
-  unfold stabGate at hs
-  unfold dmGate at hd
-  simp only [hρs] at hd
-  rcases hk with hk | hk | hk <;> simp only [hk] at hs hd
-  · -- MeasurementZ
-    unfold stabMeasZ at hs
-    rw [if_pos hq1] at hs
-    injection hs with hs; subst hs
-    simp only [Bool.or_eq_false_iff, Bool.not_eq_false'] at hu
-    cases hp : projectorsZ n (qIndex np op.r1 op.t1) with
-    | error e => rw [hp] at hd; cases hd
-    | ok pp =>
-      obtain ⟨p0, p1⟩ := pp
-      rw [hp] at hd
-      simp only at hd
-      obtain ⟨ρ', o, hm, hn', hc, hall, _⟩ := measure_lockstep n _ hq1 det s.mix ρ p0 p1 hg hρn hρ hW hu.2 hp
-      have hhead := head_outcome _ det s.mix o hne hall
-      rw [hm] at hd
-      injection hd with hd; subst hd
-      refine ⟨⟨ρ', rfl, hn', hc⟩, measure_good n _ hq1 det s.mix hg, ?_⟩
-      show setRec d.creg op.c _ = setRec s.creg op.c _
-      rw [hcr, hhead]
-  all_goals
-    -- ClassicalCNOT / ClassicalCZ: measure the control, apply the Pauli to the target in the branches with outcome 1
-    have hq2 := hw.2.1 (Or.inr (by simp [hk, Kind.isClassicalCtrl]))
-    unfold stabClassical at hs
-    rw [if_pos ⟨hq1, hq2⟩] at hs
-    injection hs with hs; subst hs
-    simp only [Bool.or_eq_false_iff, Bool.not_eq_false'] at hu
-    cases hp : projectorsZ n (qIndex np op.r1 op.t1) with
-    | error e => rw [hp] at hd; cases hd
-    | ok pp =>
-      obtain ⟨p0, p1⟩ := pp
-      rw [hp] at hd
-      simp only at hd
-      obtain ⟨ρ', o, hm, hn', hc, hall, _⟩ := measure_lockstep n _ hq1 det s.mix ρ p0 p1 hg hρn hρ hW hu.2 hp
-      rw [hm] at hd
-      simp only at hd
-      have hlen := Mix.measure_length (qIndex np op.r1 op.t1) det s.mix
-      have hgm := measure_good n _ hq1 det s.mix hg
-      have hhead := head_outcome _ det s.mix o hne hall
-      simp only [Bool.false_eq_true, if_false]
-      rw [conditioned_all _ o _ _ (by rw [hlen.1, hlen.2]) hall]
-      cases o with
-      | false =>
-        simp only [Bool.false_eq_true, if_false] at hd ⊢
-        injection hd with hd; subst hd
-        refine ⟨⟨ρ', rfl, hn', hc⟩, hgm, ?_⟩
-        show setRec d.creg op.c _ = setRec s.creg op.c _
-        rw [hcr, hhead]; rfl
-      | true =>
-        simp only [if_true] at hd ⊢
-        have hh : (toC n ρ')ᴴ = toC n ρ' := by rw [hc]; exact mixRho_herm n _ hgm
-        first
-        | (cases hu' : applyUnitary ρ' ⟨1, getOneQubitGate n (qIndex np op.r2 op.t2) Mat.sigmax⟩ with
-           | error e => rw [hu'] at hd; cases hd
-           | ok r =>
-             rw [hu'] at hd
-             simp only [Bool.false_eq_true, if_false] at hd
-             injection hd with hd; subst hd
-             obtain ⟨e, hr⟩ := applyUnitary_toC n ρ' ⟨1, getOneQubitGate n (qIndex np op.r2 op.t2) Mat.sigmax⟩ hn'
-               (oneQubitGate_n n _ hq2 Mat.sigmax rfl) hh r hu'
-             refine ⟨⟨r, rfl, hr, ?_⟩, ?_, ?_⟩
-             · rw [e]
-               show _ • conjH (toC n (getOneQubitGate n (qIndex np op.r2 op.t2) Mat.sigmax)) _ = _
-               rw [toC_oneQubitGate n _ hq2, toC2_sigmax, hc]
-               have := mixRho_mapGate n (.X (qIndex np op.r2 op.t2)) hq2 _ hgm.mixN
-               simp only [Rat.cast_one, one_smul]
-               exact this.symm
-             · exact mixGood_of n _ (mapTab_ok n _ (keeps_x n _ hq2) _ hgm.ok)
-                 (mapTab_real _ (fun t hr => gate_stabReal t (.X (qIndex np op.r2 op.t2)) hr) _ (fun x hx => (hgm x hx).2.2))
-             · show setRec d.creg op.c _ = setRec s.creg op.c _
-               rw [hcr, hhead]; rfl)
-        | (cases hu' : applyUnitary ρ' ⟨1, getOneQubitGate n (qIndex np op.r2 op.t2) Mat.sigmaz⟩ with
-           | error e => rw [hu'] at hd; cases hd
-           | ok r =>
-             rw [hu'] at hd
-             simp only [Bool.false_eq_true, if_false] at hd
-             injection hd with hd; subst hd
-             obtain ⟨e, hr⟩ := applyUnitary_toC n ρ' ⟨1, getOneQubitGate n (qIndex np op.r2 op.t2) Mat.sigmaz⟩ hn'
-               (oneQubitGate_n n _ hq2 Mat.sigmaz rfl) hh r hu'
-             refine ⟨⟨r, rfl, hr, ?_⟩, ?_, ?_⟩
-             · rw [e]
-               show _ • conjH (toC n (getOneQubitGate n (qIndex np op.r2 op.t2) Mat.sigmaz)) _ = _
-               rw [toC_oneQubitGate n _ hq2, toC2_sigmaz, hc]
-               have := mixRho_mapGate n (.Z (qIndex np op.r2 op.t2)) hq2 _ hgm.mixN
-               simp only [Rat.cast_one, one_smul]
-               exact this.symm
-             · exact mixGood_of n _ (mapTab_ok n _ (keeps_z n _ hq2) _ hgm.ok)
-                 (mapTab_real _ (fun t hr => gate_stabReal t (.Z (qIndex np op.r2 op.t2)) hr) _ (fun x hx => (hgm x hx).2.2))
-             · show setRec d.creg op.c _ = setRec s.creg op.c _
-               rw [hcr, hhead]; rfl)
 
 /-! ### `MeasurementCNOTandReset` -/
 
@@ -363,167 +257,6 @@ theorem dmReset_toC (n q : Nat) (hq : q < n) (ρ ρ' : Mat) (hρn : ρ.n = 2 ^ n
   rw [← hd]
   exact hermH_of_herm _ (resetH_herm n q _ hh)
 
-/-- `compile_one_gate` for `MeasurementCNOTandReset` (distinct qubits, no noise attached), both sides, flag off -/
-theorem mcrGate_lockstep (np n : Nat) (det : Bool) (op : COp) (hk : op.kind = .mcr) (hw : OpWF n np op)
-    (hne : qIndex np op.r1 op.t1 ≠ qIndex np op.r2 op.t2)
-    (s s1 : StabSt) (d d1 : DmSt) (hI : Inv n s d)
-    (hs : stabGate np n det op s = .ok s1) (hd : dmGate np n det op d = .ok d1)
-    (hu : s1.nonUniform = false) (hW : wThr < Mix.total s.mix) : Inv n s1 d1 := by
-  obtain ⟨⟨ρ, hρs, hρn, hρ⟩, hg, hcr⟩ := hI
-  have hq1 := hw.1
-  have hne' := total_ne_nil _ hW
-  have hq2 := hw.2.1 (Or.inr (by simp [hk, Kind.isClassicalCtrl]))
-  unfold stabGate at hs
-  unfold dmGate at hd
-  simp only [hρs, hk] at hs hd
-  unfold stabClassical at hs
-  rw [if_pos ⟨hq1, hq2⟩] at hs
-  injection hs with hs; subst hs
-  simp only [Bool.or_eq_false_iff, Bool.not_eq_false'] at hu
-  cases hp : projectorsZ n (qIndex np op.r1 op.t1) with
-  | error e => rw [hp] at hd; cases hd
-  | ok pp =>
-    obtain ⟨p0, p1⟩ := pp
-    rw [hp] at hd
-    simp only at hd
-    obtain ⟨ρ', o, hm, hn', hc, hall, hfx⟩ := measure_lockstep n _ hq1 det s.mix ρ p0 p1 hg hρn hρ hW hu.2 hp
-    rw [hm] at hd
-    simp only at hd
-    have hlen := Mix.measure_length (qIndex np op.r1 op.t1) det s.mix
-    have hgm := measure_good n _ hq1 det s.mix hg
-    have hhead := head_outcome _ det s.mix o hne' hall
-    simp only [if_true]
-    rw [conditioned_all _ o _ _ (by rw [hlen.1, hlen.2]) hall]
-    have hh : (toC n ρ')ᴴ = toC n ρ' := by rw [hc]; exact mixRho_herm n _ hgm
-    -- the state after the conditional X on the target: `ρ2` on the DM side, `m2` on the mixture side
-    have step2 : ∀ (ρ2 : Mat),
-        (if o = true then applyUnitary ρ' ⟨1, getOneQubitGate n (qIndex np op.r2 op.t2) Mat.sigmax⟩ else .ok ρ') = .ok ρ2 →
-        ρ2.n = 2 ^ n ∧
-        toC n ρ2 = mixRho n (if o = true then Mix.mapTab (fun t => t.xGate (qIndex np op.r2 op.t2))
-          (Mix.measure (qIndex np op.r1 op.t1) det s.mix).1 else (Mix.measure (qIndex np op.r1 op.t1) det s.mix).1) ∧
-        MixGood n (if o = true then Mix.mapTab (fun t => t.xGate (qIndex np op.r2 op.t2))
-          (Mix.measure (qIndex np op.r1 op.t1) det s.mix).1 else (Mix.measure (qIndex np op.r1 op.t1) det s.mix).1) ∧
-        Fixed n (qIndex np op.r1 op.t1) o (if o = true then Mix.mapTab (fun t => t.xGate (qIndex np op.r2 op.t2))
-          (Mix.measure (qIndex np op.r1 op.t1) det s.mix).1 else (Mix.measure (qIndex np op.r1 op.t1) det s.mix).1) := by
-      intro ρ2 h2
-      cases o with
-      | false =>
-        simp only [Bool.false_eq_true, if_false] at h2 ⊢
-        injection h2 with h2; subst h2
-        exact ⟨hn', hc, hgm, hfx⟩
-      | true =>
-        simp only [if_true] at h2 ⊢
-        obtain ⟨e, hr⟩ := applyUnitary_toC n ρ' ⟨1, getOneQubitGate n (qIndex np op.r2 op.t2) Mat.sigmax⟩ hn'
-          (oneQubitGate_n n _ hq2 Mat.sigmax rfl) hh ρ2 h2
-        refine ⟨hr, ?_, ?_, mapX_fixed n _ _ hq2 hne true _ hgm.mixN hfx⟩
-        · rw [e]
-          show _ • conjH (toC n (getOneQubitGate n (qIndex np op.r2 op.t2) Mat.sigmax)) _ = _
-          rw [toC_oneQubitGate n _ hq2, toC2_sigmax, hc]
-          have := mixRho_mapGate n (.X (qIndex np op.r2 op.t2)) hq2 _ hgm.mixN
-          simp only [Rat.cast_one, one_smul]
-          exact this.symm
-        · exact mixGood_of n _ (mapTab_ok n _ (keeps_x n _ hq2) _ hgm.ok)
-            (mapTab_real _ (fun t hr => gate_stabReal t (.X (qIndex np op.r2 op.t2)) hr) _ (fun x hx => (hgm x hx).2.2))
-    cases h2 : (if o = true then applyUnitary ρ' ⟨1, getOneQubitGate n (qIndex np op.r2 op.t2) Mat.sigmax⟩ else .ok ρ') with
-    | error e => rw [h2] at hd; cases hd
-    | ok ρ2 =>
-      rw [h2] at hd
-      simp only [if_true] at hd
-      obtain ⟨n2, c2, g2, f2⟩ := step2 ρ2 h2
-      have hh2 : (toC n ρ2)ᴴ = toC n ρ2 := by rw [c2]; exact mixRho_herm n _ g2
-      cases h3 : applyChannel ρ2 (resetKraus n (qIndex np op.r1 op.t1)) with
-      | error e => rw [h3] at hd; cases hd
-      | ok r =>
-        rw [h3] at hd
-        injection hd with hd; subst hd
-        obtain ⟨e3, n3⟩ := dmReset_toC n _ hq1 ρ2 r n2 hh2 h3
-        refine ⟨⟨r, rfl, n3, ?_⟩, reset_good n _ hq1 det _ g2, ?_⟩
-        · rw [e3, c2, resetH_of_fixed n _ hq1 o _ (fixed_mixRho n _ o _ f2), mixRho_reset n _ hq1 det o _ g2 f2]
-        · show setRec d.creg op.c _ = setRec s.creg op.c _
-          rw [hcr, hhead]
-
-/-! ### flags only ever switch on -/
-
-theorem stabGate_flags (np n : Nat) (det : Bool) (op : COp) (s s1 : StabSt) (h : stabGate np n det op s = .ok s1) :
-    (s1.nonUniform = false → s.nonUniform = false) ∧ (s1.lossMeas = false → s.lossMeas = false) := by
-  unfold stabGate at h
-  simp only at h
-  have m1 : ∀ (q : Nat) (f : Tab → Tab), stabMap1 n q f s = .ok s1 →
-      (s1.nonUniform = false → s.nonUniform = false) ∧ (s1.lossMeas = false → s.lossMeas = false) := by
-    intro q f h; unfold stabMap1 at h; split at h
-    · injection h with h; subst h; exact ⟨id, id⟩
-    · cases h
-  have m2 : ∀ (q1 q2 : Nat) (f : Tab → Tab), stabMap2 n q1 q2 f s = .ok s1 →
-      (s1.nonUniform = false → s.nonUniform = false) ∧ (s1.lossMeas = false → s.lossMeas = false) := by
-    intro q1 q2 f h; unfold stabMap2 at h; split at h
-    · injection h with h; subst h; exact ⟨id, id⟩
-    · cases h
-  have m3 : ∀ (q1 q2 c : Nat) (f : Tab → Tab) (r : Bool), stabClassical n q1 q2 c det f r s = .ok s1 →
-      (s1.nonUniform = false → s.nonUniform = false) ∧ (s1.lossMeas = false → s.lossMeas = false) := by
-    intro q1 q2 c f r h; unfold stabClassical at h; split at h
-    · injection h with h; subst h
-      exact ⟨fun h => (Bool.or_eq_false_iff.1 h).1, fun h => (Bool.or_eq_false_iff.1 h).1⟩
-    · cases h
-  have m4 : ∀ (q1 c : Nat), stabMeasZ n q1 c det s = .ok s1 →
-      (s1.nonUniform = false → s.nonUniform = false) ∧ (s1.lossMeas = false → s.lossMeas = false) := by
-    intro q1 c h; unfold stabMeasZ at h; split at h
-    · injection h with h; subst h
-      exact ⟨fun h => (Bool.or_eq_false_iff.1 h).1, fun h => (Bool.or_eq_false_iff.1 h).1⟩
-    · cases h
-  cases hk : op.kind <;> simp only [hk] at h
-  all_goals first
-    | (injection h with h; subst h; exact ⟨id, id⟩)
-    | exact m1 _ _ h
-    | exact m2 _ _ _ h
-    | exact m3 _ _ _ _ _ h
-    | exact m4 _ _ h
-    | cases h
-
-theorem stabAct_flags (np n : Nat) (det : Bool) (arr : Array COp) (s s1 : StabSt) (a : Act)
-    (h : stabAct np n det arr s a = .ok s1) :
-    (s1.nonUniform = false → s.nonUniform = false) ∧ (s1.lossMeas = false → s.lossMeas = false) := by
-  cases a with
-  | gate k => exact stabGate_flags np n det _ s s1 h
-  | noise k side q nm =>
-    simp only [stabAct] at h
-    cases hn : Mix.applyNoise nm q s.mix with
-    | error e => rw [hn] at h; cases h
-    | ok m' => rw [hn] at h; injection h with h; subst h; exact ⟨id, id⟩
-  | replace k => simp [stabAct] at h
-
-theorem runStabActs_flags (np n : Nat) (det : Bool) (arr : Array COp) : ∀ (acts : List Act) (s s' : StabSt),
-    runStabActs np n det arr acts s = .ok s' →
-    (s'.nonUniform = false → s.nonUniform = false) ∧ (s'.lossMeas = false → s.lossMeas = false)
-  | [], s, s', h => by simp [runStabActs] at h; subst h; exact ⟨id, id⟩
-  | a :: as, s, s', h => by
-    simp only [runStabActs] at h
-    cases ha : stabAct np n det arr s a with
-    | error e => rw [ha] at h; cases h
-    | ok s1 =>
-      rw [ha] at h
-      have h1 := stabAct_flags np n det arr s s1 a ha
-      have h2 := runStabActs_flags np n det arr as s1 s' h
-      exact ⟨fun x => h1.1 (h2.1 x), fun x => h1.2 (h2.2 x)⟩
-
-theorem stabGo_flags (ns : Bool) (np n : Nat) (det : Bool) (arr : Array COp) : ∀ (ops : List COp) (k : Nat) (s s' : StabSt),
-    stabGo ns np n det arr ops k s = .ok s' →
-    (s'.nonUniform = false → s.nonUniform = false) ∧ (s'.lossMeas = false → s.lossMeas = false)
-  | [], k, s, s', h => by simp [stabGo] at h; subst h; exact ⟨id, id⟩
-  | op :: rest, k, s, s', h => by
-    simp only [stabGo] at h
-    split at h
-    · cases h
-    · cases hp : placeOp ns .stab np op k with
-      | error e => rw [hp] at h; cases h
-      | ok acts =>
-        rw [hp] at h; simp only at h
-        cases hr : runStabActs np n det arr acts s with
-        | error e => rw [hr] at h; cases h
-        | ok s1 =>
-          rw [hr] at h; simp only at h
-          have h1 := runStabActs_flags np n det arr acts s s1 hr
-          have h2 := stabGo_flags ns np n det arr rest (k + 1) s1 s' h
-          exact ⟨fun x => h1.1 (h2.1 x), fun x => h1.2 (h2.2 x)⟩
 
 /-! ### the two compilers in lockstep -/
 
@@ -565,36 +298,8 @@ def LossOK : NoiseM → Prop
 /-- depolarizing probability and loss rate in `[0,1]` -/
 def ParamOK2 (nm : NoiseM) : Prop := ParamOK nm ∧ LossOK nm
 
-/-- `MeasurementCNOTandReset` on two distinct qubits -/
-def McrOK (np : Nat) (op : COp) : Prop := op.kind = .mcr ∧ qIndex np op.r1 op.t1 ≠ qIndex np op.r2 op.t2
-
-/-- the operations of the extended class: the measurement-free ones of `OpOK` (loss rates in `[0,1]`), and `MeasurementZ` /
-    `ClassicalCNOT` / `ClassicalCZ` / `MeasurementCNOTandReset` (distinct qubits) on existing qubits without noise attached -/
-inductive OpOK2 (n np : Nat) (op : COp) : Prop
-  | unitary (h : OpOK n np op) (l0 : LossOK op.n0) (l1 : LossOK op.n1)
-  | meas (hk : MeasKind op.kind ∨ McrOK np op) (hw : OpWF n np op) (h0 : op.n0.isNone = true) (h1 : op.n1.isNone = true)
-
-theorem OpOK2.wf {n np : Nat} {op : COp} (h : OpOK2 n np op) : OpWF n np op := by
-  cases h with
-  | unitary h => exact h.wf
-  | meas _ hw _ _ => exact hw
-
-theorem OpOK2.kind {n np : Nat} {op : COp} (h : OpOK2 n np op) : MFree op ∨ (MeasKind op.kind ∨ McrOK np op) := by
-  cases h with
-  | unitary h => exact Or.inl h.mfree
-  | meas hk _ _ _ => exact Or.inr hk
 
 theorem lossOK_of_none (nm : NoiseM) (h : nm.isNone = true) : LossOK nm := by cases nm <;> simp_all [NoiseM.isNone, LossOK]
-
-theorem OpOK2.loss {n np : Nat} {op : COp} (h : OpOK2 n np op) : LossOK op.n0 ∧ LossOK op.n1 := by
-  cases h with
-  | unitary _ l0 l1 => exact ⟨l0, l1⟩
-  | meas _ _ h0 h1 => exact ⟨lossOK_of_none _ h0, lossOK_of_none _ h1⟩
-
-def ActOK2 (n np : Nat) (arr : Array COp) : Act → Prop
-  | .gate k => ∀ op, arr[k]? = some op → OpWF n np op ∧ (MFree op ∨ (MeasKind op.kind ∨ McrOK np op))
-  | .noise _ _ q nm => q < n ∧ ParamOK2 nm
-  | .replace _ => True
 
 theorem getD_none (arr : Array COp) (k : Nat) (hk : arr[k]? = none) :
     arr.getD k { kind := .identity } = { kind := .identity } := by
@@ -698,173 +403,6 @@ theorem dmGate_creg (np n : Nat) (det : Bool) (op : COp) (hf : MFree op) (d d1 :
       | cases h
       | (rcases hf with hf | hf <;> simp [hk, Kind.isOneQubit, Kind.isCtrlPair] at hf)
 
-/-- one action on both sides -/
-theorem act_lockstep (np n : Nat) (det : Bool) (arr : Array COp) (s s1 : StabSt) (d d1 : DmSt) (a : Act)
-    (ha : ActOK2 n np arr a) (hI : Inv n s d)
-    (hs : stabAct np n det arr s a = .ok s1) (hd : dmAct np n det arr d a = .ok d1)
-    (hu : s1.nonUniform = false) (hW : wThr < Mix.total s1.mix) : Inv n s1 d1 := by
-  obtain ⟨⟨ρ, hρs, hρn, hρ⟩, hg, hcr⟩ := hI
-  have hh : (toC n ρ)ᴴ = toC n ρ := by rw [hρ]; exact mixRho_herm n _ hg
-  cases a with
-  | gate k =>
-    simp only [stabAct] at hs
-    simp only [dmAct] at hd
-    cases hk : arr[k]? with
-    | none =>
-      rw [getD_none arr k hk] at hs hd
-      simp only [stabGate] at hs
-      simp only [dmGate, hρs] at hd
-      injection hs with hs; subst hs
-      injection hd with hd; subst hd
-      exact ⟨⟨ρ, hρs, hρn, hρ⟩, hg, hcr⟩
-    | some op =>
-      rw [getD_some arr k op hk] at hs hd
-      obtain ⟨hw, hkind⟩ := ha op hk
-      rcases hkind with hf | hm
-      · obtain ⟨e1, _⟩ := stabGate_mixRho np n det op hf hw.2.2 s s1 hg.mixN hs
-        obtain ⟨ρ', hρ', e2, n2⟩ := dmGate_toC np n det op hf hw d d1 ρ hρs hρn hh hd
-        exact ⟨⟨ρ', hρ', n2, by rw [e2, hρ, e1]⟩,
-          mixGood_of n _ (stabGate_ok np n det op hw.2.2 s s1 hg.ok hs)
-            (stabGate_real np n det op hf s s1 (fun x hx => (hg x hx).2.2) hs),
-          by rw [dmGate_creg np n det op hf d d1 hd, stabGate_creg np n det op hf s s1 hs, hcr]⟩
-      · have hWs : wThr < Mix.total s.mix := by rw [← stabGate_total np n det op s s1 hs]; exact hW
-        rcases hm with hm | hm
-        · exact measGate_lockstep np n det op hm hw s s1 d d1 ⟨⟨ρ, hρs, hρn, hρ⟩, hg, hcr⟩ hs hd hu hWs
-        · exact mcrGate_lockstep np n det op hm.1 hw hm.2 s s1 d d1 ⟨⟨ρ, hρs, hρn, hρ⟩, hg, hcr⟩ hs hd hu hWs
-  | noise k side q nm =>
-    simp only [stabAct] at hs
-    simp only [dmAct, hρs] at hd
-    cases hn : Mix.applyNoise nm q s.mix with
-    | error e => rw [hn] at hs; cases hs
-    | ok m' =>
-      rw [hn] at hs; injection hs with hs; subst hs
-      cases hn2 : DMx.applyNoise n nm q ρ with
-      | error e => rw [hn2] at hd; cases hd
-      | ok r =>
-        rw [hn2] at hd; injection hd with hd; subst hd
-        obtain ⟨e1, _⟩ := applyNoise_mixRho n q ha.1 nm ha.2.1 s.mix m' hg.mixN hn
-        obtain ⟨e2, n2⟩ := dmNoise_toC n q ha.1 nm ρ r hρn hh hn2
-        exact ⟨⟨r, rfl, n2, by rw [e2, hρ, e1]⟩,
-          mixGood_of n _ (applyNoise_ok n q ha.1 nm s.mix m' hg.ok hn)
-            (applyNoise_real nm q s.mix m' (fun x hx => (hg x hx).2.2) hn), hcr⟩
-  | replace k => simp [stabAct] at hs
-
-theorem actOK2_loss (n np : Nat) (arr : Array COp) (acts : List Act) (h : ∀ a ∈ acts, ActOK2 n np arr a) :
-    TraceP LossOK acts := by
-  intro k side q nm hm
-  exact (h _ hm).2.2
-
-theorem run_lockstep (np n : Nat) (det : Bool) (arr : Array COp) :
-    ∀ (acts : List Act) (s s' : StabSt) (d d' : DmSt), (∀ a ∈ acts, ActOK2 n np arr a) → Inv n s d →
-      runStabActs np n det arr acts s = .ok s' → runDmActs np n det arr acts d = .ok d' →
-      s'.nonUniform = false → wThr < Mix.total s'.mix → Inv n s' d'
-  | [], s, s', d, d', _, hI, hs, hd, _, _ => by
-    simp [runStabActs] at hs; simp [runDmActs] at hd; subst hs; subst hd; exact hI
-  | a :: as, s, s', d, d', hw, hI, hs, hd, hu, hW => by
-    simp only [runStabActs] at hs
-    simp only [runDmActs] at hd
-    cases ha : stabAct np n det arr s a with
-    | error e => rw [ha] at hs; cases hs
-    | ok s1 =>
-      rw [ha] at hs
-      cases hb : dmAct np n det arr d a with
-      | error e => rw [hb] at hd; cases hd
-      | ok d1 =>
-        rw [hb] at hd
-        have hfl := runStabActs_flags np n det arr as s1 s' hs
-        have hrange := lossFactor_range as (actOK2_loss n np arr as (fun b hb' => hw b (List.mem_cons_of_mem _ hb')))
-        have hW1 : wThr < Mix.total s1.mix := by
-          have e := runStabActs_total np n det arr as s1 s' hs
-          rw [e] at hW
-          exact weight_mono _ _ _ wThr_pos hrange.1 hrange.2 hW
-        have hI1 := act_lockstep np n det arr s s1 d d1 a (hw a List.mem_cons_self) hI ha hb (hfl.1 hu) hW1
-        exact run_lockstep np n det arr as s1 s' d1 d' (fun b hb' => hw b (List.mem_cons_of_mem _ hb')) hI1 hs hd hu hW
-
-theorem go_lockstep (ns : Bool) (np n : Nat) (det : Bool) (arr : Array COp)
-    (harr : ∀ (j : Nat) (op : COp), arr[j]? = some op → OpOK2 n np op) :
-    ∀ (ops : List COp) (k : Nat) (s s' : StabSt) (d d' : DmSt), (∀ op ∈ ops, OpOK2 n np op) → Inv n s d →
-      stabGo ns np n det arr ops k s = .ok s' → dmGo ns np n det arr ops k d = .ok d' →
-      s'.nonUniform = false → wThr < Mix.total s'.mix → Inv n s' d'
-  | [], k, s, s', d, d', _, hI, hs, hd, _, _ => by
-    simp [stabGo] at hs; simp [dmGo] at hd; subst hs; subst hd; exact hI
-  | op :: rest, k, s, s', d, d', hw, hI, hs, hd, hu, hW => by
-    simp only [stabGo] at hs
-    simp only [dmGo] at hd
-    split at hs
-    · cases hs
-    · have ho := hw op List.mem_cons_self
-      have hback : placeOp ns .dm np op k = placeOp ns .stab np op k := by
-        cases ho with
-        | unitary h => exact placeOp_backend ns np op k h.mfree
-        | meas hk hw' h0 h1 => rw [placeOp_none ns .dm np op k h0 h1, placeOp_none ns .stab np op k h0 h1]
-      rw [hback] at hd
-      cases hp : placeOp ns .stab np op k with
-      | error e => rw [hp] at hs; cases hs
-      | ok acts =>
-        rw [hp] at hs hd; simp only at hs hd
-        cases hr : runStabActs np n det arr acts s with
-        | error e => rw [hr] at hs; cases hs
-        | ok s1 =>
-          rw [hr] at hs; simp only at hs
-          cases hr2 : runDmActs np n det arr acts d with
-          | error e => rw [hr2] at hd; cases hd
-          | ok d1 =>
-            rw [hr2] at hd; simp only at hd
-            have hacts : ∀ a ∈ acts, ActOK2 n np arr a := by
-              have gate_ok : ActOK2 n np arr (.gate k) := fun op' hop' => ⟨(harr k op' hop').wf, (harr k op' hop').kind⟩
-              cases ho with
-              | unitary h l0 l1 =>
-                intro a ha
-                rcases placeOp_goodP ParamOK2 ⟨trivial, trivial⟩ n np ns .stab op k h.wf ⟨h.p0, l0⟩ ⟨h.p1, l1⟩ acts hp a ha
-                  with e | e | ⟨sd, q, nm, e, hq, hP⟩
-                · subst e; exact gate_ok
-                · subst e; trivial
-                · subst e; exact ⟨hq, hP⟩
-              | meas hk hw' h0 h1 =>
-                rw [placeOp_none ns .stab np op k h0 h1] at hp
-                injection hp with hp; subst hp
-                intro a ha
-                simp only [List.mem_singleton] at ha
-                subst ha; exact gate_ok
-            have hfl := stabGo_flags ns np n det arr rest (k + 1) s1 s' hs
-            have hW1 : wThr < Mix.total s1.mix := by
-              obtain ⟨tr, htr, e⟩ := stabGo_total ns np n det arr rest (k + 1) s1 s' hs
-              have hrange := lossFactor_range tr (traceGo_P LossOK trivial ns .stab np n rest (k + 1) tr
-                (fun o ho' => ⟨(hw o (List.mem_cons_of_mem _ ho')).wf, (hw o (List.mem_cons_of_mem _ ho')).loss⟩) htr)
-              rw [e] at hW
-              exact weight_mono _ _ _ wThr_pos hrange.1 hrange.2 hW
-            have hI1 := run_lockstep np n det arr acts s s1 d d1 hacts hI hr hr2 (hfl.1 hu) hW1
-            exact go_lockstep ns np n det arr harr rest (k + 1) s1 s' d1 d'
-              (fun o ho' => hw o (List.mem_cons_of_mem _ ho')) hI1 hs hd hu hW
-
-/-- **C06 (c) with measurements on which all branches agree**: gates, noise (photon loss included), `MeasurementZ`,
-    `ClassicalCNOT`, `ClassicalCZ`, `MeasurementCNOTandReset`.  If the stabilizer compile returns with the flag `nonUniform` off — every executed
-    measurement found all branches agreeing on "random?" and on the outcome — and a total weight above `2·10⁻⁸` (twice the
-    `np.isclose` tolerance `apply_measurement` uses; the weight never grows, so it was above it at every measurement), and the
-    density-matrix compile returns, then the density matrix equals `Σ_k w_k ρ(T_k)` of the mixture, entry by entry.
-    Every number of qubits. -/
-theorem dm_equals_mixture_meas (ns : Bool) (ne np nc : Nat) (det : Bool) (ops : List COp)
-    (hw : ∀ op ∈ ops, OpOK2 (ne + np) np op) (s : StabSt) (d : DmSt)
-    (hs : compileStab ns ne np nc det ops = .ok s) (hd : compileDM ns ne np nc det ops = .ok d)
-    (hu : s.nonUniform = false) (hW : wThr < Mix.total s.mix) :
-    ∃ ρ, d.ρ = some ρ ∧ Mat.EqOn ρ (mixtureDensity (ne + np) s.mix) ∧ d.creg = s.creg := by
-  unfold compileStab at hs
-  unfold compileDM at hd
-  have hI0 : Inv (ne + np) { mix := [(1, (Tab.ket0 (ne + np)).norm)], creg := List.replicate nc 0 }
-      { ρ := some (⟨pow2 (ne + np), fun i j => if i = 0 ∧ j = 0 then 1 else 0⟩ : Mat).norm, creg := List.replicate nc 0 } := by
-    refine ⟨⟨_, rfl, rfl, ?_⟩, ?_, rfl⟩
-    · rw [toC_rho0, mixRho_init]
-    · intro x hx
-      simp only [List.mem_singleton] at hx
-      subst hx
-      exact ⟨rfl, Tab.norm_valid _ (Tab.ket0_valid _), norm_stabReal _ (ket0_stabReal _)⟩
-  obtain ⟨⟨ρ, hρ, hn, e⟩, hg, hcr⟩ := go_lockstep ns np (ne + np) det ops.toArray (by
-      intro j op hop
-      apply hw
-      have : op ∈ ops.toArray := Array.mem_of_getElem? hop
-      simpa using this) ops 0 _ s _ d hw hI0 hs hd hu hW
-  obtain ⟨e3, n3⟩ := toC_mixtureDensity (ne + np) s.mix hg.mixN
-  exact ⟨ρ, hρ, toC_inj (ne + np) _ _ hn n3 (by rw [e, e3]), hcr⟩
 
 /-- whenever the density matrix is `Σ_k w_k ρ(T_k)`, its overlap with any stabilizer target is the weighted sum of the
     branch overlaps -/
@@ -876,16 +414,6 @@ theorem overlap_of_eqOn (n : Nat) (ρ : Mat) (m : Mixture) (hm : MixN n m) (h : 
   apply gqC_injective
   rw [gqC_mulTrace n _ _ n2, toC_congr n _ _ n2 h, e3, e4, overlap_linear, gqC_mixOverlapQ n T hT m hm]
 
-/-- same fidelity with any stabilizer target on both backends, circuits with uniform measurements -/
-theorem overlap_both_backends_meas (ns : Bool) (ne np nc : Nat) (det : Bool) (ops : List COp)
-    (hw : ∀ op ∈ ops, OpOK2 (ne + np) np op) (s : StabSt) (d : DmSt)
-    (hs : compileStab ns ne np nc det ops = .ok s) (hd : compileDM ns ne np nc det ops = .ok d)
-    (hu : s.nonUniform = false) (hW : wThr < Mix.total s.mix) (T : Tab) (hT : T.n = ne + np) :
-    ∃ ρ, d.ρ = some ρ ∧ (ρ.mul (stabilizerDensity T)).trace = mixOverlapQ T s.mix := by
-  obtain ⟨ρ, hρ, he, _⟩ := dm_equals_mixture_meas ns ne np nc det ops hw s d hs hd hu hW
-  have hm : MixN (ne + np) s.mix :=
-    fun x hx => (compileStab_ok ns ne np nc det ops (fun op ho => (hw op ho).wf) s hs x hx).1
-  exact ⟨ρ, hρ, overlap_of_eqOn (ne + np) ρ s.mix hm he T hT⟩
 
 end MixDM
 end Graphiq
